@@ -14,3 +14,4 @@ from contracts import checks as CK
 UNITS = [CK.unit_is_unique_init(), IF.unit_add_check_row(), IF.unit_add_field_format_row(), IF.unit_cid_read(), IF.unit_validated_field_name(), IF.unit_add_data_format_row(), IF.unit_create_class_and_check_row(), IF.unit_c09_catalogue()]
 from contracts import fields as FL
 UNITS += [CK.unit_distinct_count_init(), CK.unit_audit_first_token(), FL.unit_field_name_index()]
+UNITS += [IF.unit_add_field_format()]
